@@ -126,8 +126,9 @@ def run(ctx, chk):
         for (t, truth, ins) in pa.facts:
             if t == ("icmp", "eq", SIZE, ("c", 0)) and truth:
                 cause = "empty"
-            elif t[0] == "icmp" and t[1] == "ugt" and t[2] == SIZE and not truth:
-                cause = "exhausted"
+            elif t[0] == "icmp" and len(t) == 4 and ((t[2] == SIZE and ((t[1] == "ugt" and not truth) or (t[1] == "ule" and truth))) or
+                                                     (t[3] == SIZE and ((t[1] == "ult" and not truth) or (t[1] == "uge" and truth)))):
+                cause = "exhausted"       # source_size <= read, however the comparison is spelled
             elif t[0] in ("in", "notin") and t[1][0] == "ld" and t[1][2] == st_status:
                 if t[0] == "in" and len(t[2]) == 1:
                     v = t[2][0]
@@ -288,6 +289,11 @@ def run(ctx, chk):
     _g5 = prog.global_for(prog.fn("cbor_load"), "cbor_load.callbacks")
     _w5 = {n_: getattr(el_, "name", None) for n_, el_ in zip(tables.callback_fields(prog), _g5["init_val"].elems)}
     check_break(chk, "C05.break", prog, cache_, _ts5.CallSites(prog, eff, cache_, _H5, _PA5), _PA5, _w5["indef_break"])
+    chk.rule("C05.drain", "every NULL-returning path of cbor_load that follows a decoder call leaves through the drain loop: each round releases "
+             "the top item and pops its record, and the loop is left on the stack-empty edge - nothing the decoder built stays behind "
+             "(a failed load leaves nothing allocated; shared with C01.drain)")
+    from props.c01 import check_load_paths
+    check_load_paths(chk, prog, eff, R_window=None, R_drain="C05.drain", R_outcome=None)
     chk.exhaustive = True
 
 
